@@ -13,7 +13,20 @@ pub const RULE: &str = "cases = as C09 (accepted connected graphs, L=1..5, D=1..
 
 pub fn gen_case(t: &mut Tape, tier: Tier) -> Option<Phys> {
     let mo = if t.chance(0.3) { 1.0 / 64.0 } else { 0.15 };
-    gen::gen_phys(t, &PhysOpts { max_e: tier.pick(8, 9), max_l: 5, min_omega: mo, dmax: 6, max_ops: tier.pick(4, 6), profile: gen::PointProfile { lambda_tail: 0.1, bm_extreme: 0.1, ..gen::MODERATE } })
+    let prof = gen::PointProfile { lambda_tail: 0.1, bm_extreme: 0.1, ..gen::MODERATE };
+    if t.chance(0.2) {
+        // hand-written-style kinematics (small integers / half-integers)
+        let g = gen::gen_phys_graph(t, tier.pick(8, 9), 5, mo, 6)?;
+        let (free, masses) = gen::gen_kin_data_special(t, &g);
+        let kin = gen::gen_routing(t, &g, &free, &masses, tier.pick(4, 6));
+        if !crate::oracle::sym::Sym::new(&g, &kin.inflow, &kin.masses).f_nonzero() {
+            return None;
+        }
+        let (x, mut classes) = gen::gen_point(t, &g, &prof);
+        classes.push("kin:small-integers");
+        return Some(Phys { g, kin, x, classes: classes.into_iter().map(String::from).collect() });
+    }
+    gen::gen_phys(t, &PhysOpts { max_e: tier.pick(8, 9), max_l: 5, min_omega: mo, dmax: 6, max_ops: tier.pick(4, 6), profile: prof })
 }
 
 pub fn assert_c10(c: &Phys, ev: &Eval, ctx: &mut Ctx) -> Result<(), Failure> {
@@ -145,7 +158,7 @@ pub fn check(c: &Phys, ctx: &mut Ctx) -> Result<(), Failure> {
 }
 pub fn run(tier: Tier, seed: u64) -> i32 {
     let t0 = Instant::now();
-    let sp = Spec { id: "C10", rule: RULE, tape_len: 280, cases: tier.pick(20_000, 300_000), gen: gen_case, check, max_shrink_iters: 3000, shards: 16 };
+    let sp = Spec { id: "C10", rule: RULE, tape_len: 280, cases: tier.pick(60_000, 600_000), gen: gen_case, check, max_shrink_iters: 3000, shards: 16 };
     let mut stats = engine::run_spec(&sp, tier, seed);
     engine::run_regressions::<Phys>("C10", check, &mut stats);
     engine::finish("C10", tier, seed, RULE, stats, t0, serde_json::json!({}), &["Feynman parameters read from the crate's debug log (checked by C07)", "identities evaluated in exact rational arithmetic on the returned f64 values", "tolerance 1000*eps*kappa*c_V"])
